@@ -95,7 +95,8 @@ fn packed_len(t: &Ty) -> usize {
         Ty::Prim(p) => prim_len(p),
         Ty::XN(n) => *n,
         Ty::Unit | Ty::X | Ty::Named(_) => 0,
-        Ty::Arr(n, e) => n * packed_len(e),
+        Ty::Arr(n, e) | Ty::HVec(n, e) => n * packed_len(e),
+        Ty::HStr(n) => *n,
         Ty::Tup(ts) => ts.iter().map(packed_len).sum(),
         Ty::Enum(e) => repr_size(&e.repr).unwrap_or(0),
         Ty::Struct(s) => struct_width(s).div_ceil(8) as usize,
@@ -105,7 +106,7 @@ fn packed_len(t: &Ty) -> usize {
 /// A layout the macro accepts but whose field types do not fit their slots at run time (or that nests one).
 fn misfit(t: &Ty) -> bool {
     match t {
-        Ty::Arr(_, e) => misfit(e),
+        Ty::Arr(_, e) | Ty::HVec(_, e) => misfit(e),
         Ty::Tup(ts) => ts.iter().any(misfit),
         Ty::Struct(s) => {
             let (lay, _) = layout(s);
@@ -131,7 +132,7 @@ fn misfit(t: &Ty) -> bool {
 /// Contains an array of zero-size elements (`chunks_exact(0)` panics by construction).
 fn degenerate(t: &Ty) -> bool {
     match t {
-        Ty::Arr(n, e) => (*n > 0 || true) && (packed_len(e) == 0 || degenerate(e)),
+        Ty::Arr(n, e) | Ty::HVec(n, e) => (*n > 0 || true) && (packed_len(e) == 0 || degenerate(e)),
         Ty::Tup(ts) => ts.iter().any(degenerate),
         Ty::Struct(s) => s.fields.iter().any(|(a, t)| !a.skip && degenerate(t)),
         _ => false,
@@ -311,6 +312,28 @@ fn ref_unpack(t: &Ty, buf: &[u8], num: Num) -> Result<Val, &'static str> {
         }
         return Ok(Val::Seq(vs));
     }
+    if let Ty::HVec(n, e) = t {
+        // the declared layout of a bounded vector: the complete elements present, at most N of them, back to back
+        let el = packed_len(e);
+        if el == 0 {
+            return Err("zero-size-element");
+        }
+        let mut vs = Vec::new();
+        for k in 0..(*n).min(buf.len() / el) {
+            vs.push(ref_unpack(e, &buf[k * el..(k + 1) * el], num)?);
+        }
+        return Ok(Val::Seq(vs));
+    }
+    if let Ty::HStr(n) = t {
+        // the whole buffer is the string: well-formed UTF-8 of at most N bytes
+        if !ref_utf8_ok(buf) {
+            return Err("InvalidUtf8");
+        }
+        if buf.len() > *n {
+            return Err("ArrayLength");
+        }
+        return Ok(Val::Seq(buf.iter().map(|b| Val::Int(*b as i128)).collect()));
+    }
     if buf.len() < len {
         return Err("ReadBufferTooShort");
     }
@@ -327,7 +350,7 @@ fn ref_unpack(t: &Ty, buf: &[u8], num: Num) -> Result<Val, &'static str> {
             }
             Ok(Val::Seq(vs))
         }
-        Ty::Tup(_) => unreachable!(),
+        Ty::Tup(_) | Ty::HVec(..) | Ty::HStr(_) => unreachable!(),
         Ty::Enum(e) => {
             let raw = le_val(buf, repr_signed(&e.repr));
             if let Some((i, _)) = read_arms(e, num).into_iter().find(|(_, d)| *d == raw) {
@@ -372,10 +395,47 @@ fn ref_unpack(t: &Ty, buf: &[u8], num: Num) -> Result<Val, &'static str> {
     }
 }
 
+/// Independent UTF-8 check (by decoding scalar values, not by the byte-range table the model uses): every sequence has a
+/// lead byte 0xxxxxxx / 110xxxxx / 1110xxxx / 11110xxx followed by the right number of 10xxxxxx bytes, encodes its scalar
+/// value in the shortest form, and the value is neither a surrogate nor above U+10FFFF.
+fn ref_utf8_ok(b: &[u8]) -> bool {
+    let mut i = 0;
+    while i < b.len() {
+        let b0 = b[i] as u32;
+        let (n, init, min) = if b0 & 0x80 == 0 {
+            (0, b0, 0)
+        } else if b0 & 0xe0 == 0xc0 {
+            (1, b0 & 0x1f, 0x80)
+        } else if b0 & 0xf0 == 0xe0 {
+            (2, b0 & 0x0f, 0x800)
+        } else if b0 & 0xf8 == 0xf0 {
+            (3, b0 & 0x07, 0x10000)
+        } else {
+            return false;
+        };
+        if i + n >= b.len() {
+            return false; // cut off by the end of the buffer
+        }
+        let mut cp = init;
+        for k in 1..=n {
+            let c = b[i + k] as u32;
+            if c & 0xc0 != 0x80 {
+                return false;
+            }
+            cp = (cp << 6) | (c & 0x3f);
+        }
+        if cp < min || cp > 0x10ffff || (0xd800..=0xdfff).contains(&cp) {
+            return false;
+        }
+        i += n + 1;
+    }
+    true
+}
+
 /// Does the value fit the declared widths (no set bit of a field's encoding beyond its width)?
 fn fits(t: &Ty, v: &Val) -> bool {
     match (t, v) {
-        (Ty::Arr(_, e), Val::Seq(vs)) => vs.iter().all(|x| fits(e, x)),
+        (Ty::Arr(_, e) | Ty::HVec(_, e), Val::Seq(vs)) => vs.iter().all(|x| fits(e, x)),
         (Ty::Tup(ts), Val::Seq(vs)) => ts.iter().zip(vs).all(|(t, x)| fits(t, x)),
         (Ty::Struct(s), Val::Seq(vs)) => {
             let (lay, _) = layout(s);
@@ -402,7 +462,7 @@ fn fits(t: &Ty, v: &Val) -> bool {
 /// The value with every skipped field replaced by `d` (what an unpack can give back at best).
 fn normalize(t: &Ty, v: &Val) -> Val {
     match (t, v) {
-        (Ty::Arr(_, e), Val::Seq(vs)) => Val::Seq(vs.iter().map(|x| normalize(e, x)).collect()),
+        (Ty::Arr(_, e) | Ty::HVec(_, e), Val::Seq(vs)) => Val::Seq(vs.iter().map(|x| normalize(e, x)).collect()),
         (Ty::Tup(ts), Val::Seq(vs)) => Val::Seq(ts.iter().zip(vs).map(|(t, x)| normalize(t, x)).collect()),
         (Ty::Struct(s), Val::Seq(vs)) => {
             Val::Seq(s.fields.iter().zip(vs).map(|((a, t), x)| if a.skip { Val::Dflt } else { normalize(t, x) }).collect())
@@ -415,7 +475,7 @@ fn normalize(t: &Ty, v: &Val) -> Val {
 fn contains_implicit_enum(t: &Ty) -> bool {
     match t {
         Ty::Enum(e) => !has_catch_all(e) && has_implicit(e),
-        Ty::Arr(_, e) => contains_implicit_enum(e),
+        Ty::Arr(_, e) | Ty::HVec(_, e) => contains_implicit_enum(e),
         Ty::Tup(ts) => ts.iter().any(contains_implicit_enum),
         Ty::Struct(s) => s.fields.iter().any(|(a, t)| !a.skip && contains_implicit_enum(t)),
         _ => false,
@@ -467,6 +527,9 @@ fn sized(t: &Ty) -> bool {
         Ty::Prim(p) => !matches!(*p, "u128" | "i128"),
         Ty::Unit | Ty::Enum(_) | Ty::Struct(_) => true,
         Ty::Arr(_, e) => is_num_prim(e),
+        // `impl EtherCrabWireSized for heapless::Vec<T, N> where T: Into<u8>`
+        Ty::HVec(_, e) => matches!(**e, Ty::Prim("u8") | Ty::Prim("bool")),
+        Ty::HStr(_) => true,
         _ => false,
     }
 }
@@ -476,9 +539,11 @@ fn can_read(t: &Ty) -> bool {
         Ty::Prim(p) => !matches!(*p, "u128" | "i128"),
         Ty::Unit => true,
         Ty::Enum(e) => enum_compiles(e),
-        Ty::Arr(_, e) => can_read(e) && sized(e),
-        Ty::Tup(ts) => !ts.is_empty() && ts.len() <= 6 && ts.iter().all(|t| can_read(t) && sized(t)),
-        Ty::Struct(s) => s.fields.iter().all(|(a, t)| a.skip || can_read(t)),
+        Ty::Arr(_, e) | Ty::HVec(_, e) => can_read(e) && sized(e),
+        Ty::HStr(_) => true,
+        Ty::Tup(ts) => !ts.is_empty() && ts.len() <= 16 && ts.iter().all(|t| can_read(t) && sized(t)),
+        // the generated structs derive `Copy`: no heapless fields
+        Ty::Struct(s) => !t.contains_heapless() && s.fields.iter().all(|(a, t)| a.skip || can_read(t)),
         _ => false,
     }
 }
@@ -489,8 +554,8 @@ fn can_write(t: &Ty) -> bool {
         Ty::Unit => true,
         Ty::Enum(e) => enum_compiles(e),
         Ty::Arr(_, e) => matches!(**e, Ty::Prim("u8")),
-        Ty::Tup(ts) => !ts.is_empty() && ts.len() <= 6 && ts.iter().all(can_write),
-        Ty::Struct(s) => derive_write_ok(s) && s.fields.iter().all(|(a, t)| a.skip || can_write(t)),
+        Ty::Tup(ts) => !ts.is_empty() && ts.len() <= 16 && ts.iter().all(can_write),
+        Ty::Struct(s) => !t.contains_heapless() && derive_write_ok(s) && s.fields.iter().all(|(a, t)| a.skip || can_write(t)),
         _ => false,
     }
 }
@@ -563,6 +628,8 @@ impl Registry {
             Ty::Prim(p) => p.to_string(),
             Ty::Unit => "()".into(),
             Ty::Arr(n, e) => format!("[{}; {n}]", self.type_expr(e)),
+            Ty::HVec(n, e) => format!("heapless::Vec<{}, {n}>", self.type_expr(e)),
+            Ty::HStr(n) => format!("heapless::String<{n}>"),
             Ty::Tup(ts) => format!("({})", ts.iter().map(|t| self.type_expr(t) + ",").collect::<Vec<_>>().join(" ")),
             Ty::Enum(_) | Ty::Struct(_) => self.item(t, ""),
             Ty::X | Ty::XN(_) | Ty::Named(_) => "Unknown".into(),
@@ -692,6 +759,9 @@ impl Registry {
         if r {
             let _ = writeln!(arm, "            \"unpack\" => ops::unpack::<{rt_}>(a),");
             let _ = writeln!(arm, "            \"status\" => ops::status::<{rt_}>(a),");
+        }
+        if sized(t) && t.impl_only() {
+            let _ = writeln!(arm, "            \"buflen\" => ops::buflen::<{rt_}>(),");
         }
         if p && r {
             let _ = writeln!(arm, "            \"rt\" => ops::rt::<{wt_}, {rt_}>(a),");
@@ -1253,7 +1323,7 @@ fn collect_items(t: &Ty, out: &mut Vec<Ty>) {
             }
         }
         Ty::Enum(_) => out.push(t.clone()),
-        Ty::Arr(_, e) => collect_items(e, out),
+        Ty::Arr(_, e) | Ty::HVec(_, e) => collect_items(e, out),
         Ty::Tup(ts) => ts.iter().for_each(|t| collect_items(t, out)),
         _ => {}
     }
@@ -1294,7 +1364,8 @@ fn gen_val(rng: &mut Rng, t: &Ty, small_w: Option<u64>) -> Val {
             }
         }
         Ty::Unit => Val::Seq(vec![]),
-        Ty::Arr(n, e) => Val::Seq((0..*n).map(|_| gen_val(rng, e, None)).collect()),
+        Ty::Arr(n, e) | Ty::HVec(n, e) => Val::Seq((0..*n).map(|_| gen_val(rng, e, None)).collect()),
+        Ty::HStr(n) => Val::Seq((0..*n).map(|_| Val::Int(rng.range(0x20, 0x7e) as i128)).collect()),
         Ty::Tup(ts) => Val::Seq(ts.iter().map(|t| gen_val(rng, t, None)).collect()),
         Ty::Enum(e) => {
             let n = e.variants.len();
@@ -1482,6 +1553,314 @@ fn subject_cases(rng: &mut Rng, t: &Ty, thorough: bool, out: &mut Vec<String>) {
                 out.push(format!("c19 {} {key} {}", if rng.chance(1, 10) { "repack" } else { "unpack" }, hex(&b)));
             }
         }
+    }
+}
+
+
+// =====================================================================================================
+// Case family "impl": the hand-written impls of impls.rs that are not derive output — heapless::Vec<T, N>,
+// heapless::String<N>, [T; N], tuples of 1..16 components — on buffers shorter / equal / longer (up to 3x) than the
+// packed length
+// =====================================================================================================
+
+fn impl_family_corpus_subjects() -> Vec<&'static str> {
+    vec![
+        "hv(0,u8)", "hv(1,u8)", "hv(4,u8)", "hv(8,u8)", "hv(16,u8)", "hv(1,u16)", "hv(3,u16)", "hv(2,u32)", "hv(5,u32)", "hv(1,u64)",
+        "hv(3,bool)", "hv(2,i16)", "hv(2,a(2,u8))", "hv(3,e(u8;0;1))", "hv(2,unit)",
+        "hs(0)", "hs(1)", "hs(2)", "hs(3)", "hs(4)", "hs(8)", "hs(16)",
+        "a(5,u8)", "a(4,u16)", "a(3,i32)", "a(2,u64)", "a(0,u64)", "a(1,i32)", "a(2,hv(2,u8))", "a(2,hs(2))",
+        "t(hv(4,u8),u8)", "t(hs(4),u8)", "t(u8,hv(2,u8))", "t(u16,hs(3))", "t(hv(2,bool),u16)", "t(a(2,u16),u8,bool)",
+        "t(u8,u16,u32,u64,i8,i16,i32,i64,bool,f32,f64,u8,bool,u16,unit,u32)",
+    ]
+}
+
+fn impl_family_corpus_lines() -> Vec<&'static str> {
+    vec![
+        // one element more than the capacity (`.take(N)` is what keeps `collect` from overflowing)
+        "c19 unpack hv(1,u8) 0000",
+        "c19 unpack hv(3,u16) 01000200030004",
+        "c19 unpack hv(3,u16) 0100020003000400ff",
+        "c19 unpack hv(3,u16) 0100020003",
+        "c19 unpack hv(0,u8) 0102",
+        "c19 unpack hv(2,u32) 01000000020000000300000004000000",
+        // elements that can fail: the first N decide, what lies behind them is not looked at
+        "c19 unpack hv(3,e(u8;0;1)) 00010005",
+        "c19 unpack hv(3,e(u8;0;1)) 000500",
+        "c19 unpack hv(3,e(u8;0;1)) 0001",
+        "c19 unpack hv(2,unit) 00",
+        // strings: the whole buffer is the string
+        "c19 unpack hs(4) e282ac41",
+        "c19 unpack hs(4) e282ac4142",
+        "c19 unpack hs(3) 41e282ac",
+        "c19 unpack hs(3) 41e282",
+        "c19 unpack hs(4) eda080",
+        "c19 unpack hs(4) c080",
+        "c19 unpack hs(4) f4908080",
+        "c19 unpack hs(4) f48fbfbf",
+        "c19 unpack hs(8) f5808080",
+        "c19 unpack hs(0) -",
+        "c19 unpack hs(0) 41",
+        // arrays
+        "c19 unpack a(2,u16) 010002",
+        "c19 unpack a(2,u16) 0100020003",
+        "c19 unpack a(2,hv(2,u8)) 01020304",
+        "c19 unpack a(2,hs(2)) 4142c3a9",
+        "c19 unpack a(2,hs(2)) 41c3a942",
+        // tuples holding a variable-length component: on a short buffer the walk indexes `&buf[PACKED_LEN..]` out of range
+        // (known finding c19/impl-tuple-varlen-short-panic); with enough bytes they decode / are refused
+        "c19 unpack t(hv(4,u8),u8) 0102",
+        "c19 unpack t(hs(4),u8) 6162",
+        "c19 unpack t(u8,hv(2,u8)) 0102",
+        "c19 unpack t(hv(4,u8),u8) 0102030405",
+        "c19 unpack t(hv(4,u8),u8) 01020304",
+        "c19 unpack t(hv(4,u8),u8) -",
+        "c19 unpack t(hs(4),u8) 6162636465",
+        "c19 unpack t(hs(4),u8) 61626364",
+        "c19 unpack t(u16,hs(3)) 0100414243",
+        "c19 buflen a(3,u16)",
+        "c19 buflen a(3,u8)",
+        "c19 buflen hv(3,u8)",
+        "c19 buflen hs(7)",
+    ]
+}
+
+const FAMILY_PRIMS: [&str; 11] = ["u8", "u16", "u32", "u64", "i8", "i16", "i32", "i64", "bool", "f32", "f64"];
+
+fn impl_family_random_subjects(rng: &mut Rng, thorough: bool) -> Vec<Ty> {
+    let mut out = Vec::new();
+    let reps = if thorough { 4 } else { 1 };
+    let caps: [usize; 12] = [0, 1, 2, 3, 4, 5, 6, 7, 8, 12, 16, 31];
+    for _ in 0..8 * reps {
+        let el = if rng.chance(2, 3) { *rng.pick(&["u8", "u16", "u32"]) } else { *rng.pick(&FAMILY_PRIMS) };
+        out.push(Ty::HVec(*rng.pick(&caps), Box::new(Ty::Prim(el))));
+    }
+    for _ in 0..3 * reps {
+        out.push(Ty::HStr(*rng.pick(&[0usize, 1, 2, 3, 4, 5, 6, 7, 8, 11, 16, 32])));
+    }
+    for _ in 0..5 * reps {
+        let el = if rng.chance(2, 3) { *rng.pick(&["u8", "u16", "i32", "u64"]) } else { *rng.pick(&FAMILY_PRIMS) };
+        out.push(Ty::Arr(rng.range(0, 9) as usize, Box::new(Ty::Prim(el))));
+    }
+    for arity in 1..=16usize {
+        for _ in 0..reps {
+            let mut c: Vec<Ty> = Vec::new();
+            for _ in 0..arity {
+                c.push(match rng.below(14) {
+                    0 => Ty::Unit,
+                    1 => Ty::Arr(rng.range(0, 3) as usize, Box::new(Ty::Prim(*rng.pick(&["u8", "u16", "i32"])))),
+                    _ => Ty::Prim(*rng.pick(&FAMILY_PRIMS)),
+                });
+            }
+            out.push(Ty::Tup(c));
+        }
+    }
+    // tuples with one variable-length component
+    for _ in 0..3 * reps {
+        let n = rng.range(1, 6) as usize;
+        let var = if rng.chance(1, 2) { Ty::HStr(n) } else { Ty::HVec(n, Box::new(Ty::Prim(*rng.pick(&["u8", "bool"])))) };
+        let mut c: Vec<Ty> = (0..rng.range(1, 3)).map(|_| Ty::Prim(*rng.pick(&["u8", "u16", "bool", "i32"]))).collect();
+        let at = rng.below(c.len() as u64 + 1) as usize;
+        c.insert(at, var);
+        out.push(Ty::Tup(c));
+    }
+    out
+}
+
+/// A random well-formed UTF-8 string of exactly `len` bytes (ASCII padding at the end when the last character does not fit).
+fn utf8_of_len(rng: &mut Rng, len: usize) -> Vec<u8> {
+    const POOL: [char; 20] = [
+        'a', 'Z', '0', ' ', '\0', '\u{7f}', '\u{80}', 'é', 'ß', '\u{7ff}', '\u{800}', '€', 'あ', '\u{d7ff}', '\u{e000}', '\u{ffff}', '\u{10000}',
+        '😀', '\u{10ffff}', '~',
+    ];
+    let mut s = String::new();
+    while s.len() < len {
+        let c = if rng.chance(1, 3) { (rng.range(0x20, 0x7e) as u8) as char } else { *rng.pick(&POOL) };
+        if s.len() + c.len_utf8() <= len {
+            s.push(c);
+        } else {
+            s.push('x');
+        }
+    }
+    s.into_bytes()
+}
+
+fn string_buffers(rng: &mut Rng, n: usize, thorough: bool) -> Vec<Vec<u8>> {
+    let mut out: Vec<Vec<u8>> = Vec::new();
+    // well-formed, byte length around the capacity and up to 3x
+    let mut lens = vec![0, n.saturating_sub(1), n, n, n + 1, n + 2, 2 * n, 3 * n, 3 * n + 1];
+    if thorough {
+        lens.extend([n, n, n / 2, n + 3]);
+    }
+    for l in lens {
+        out.push(utf8_of_len(rng, l));
+    }
+    // a multi-byte character cut at the capacity: well-formed up to N - k, then the first k bytes of a longer character
+    for ch in ['é', '€', '😀'] {
+        let mut enc = [0u8; 4];
+        let e = ch.encode_utf8(&mut enc).as_bytes().to_vec();
+        for k in 1..e.len() {
+            if n >= k {
+                let mut b = utf8_of_len(rng, n - k);
+                b.extend_from_slice(&e[..k]);
+                out.push(b.clone()); // exactly N bytes, cut: invalid
+                b.extend_from_slice(&e[k..]);
+                out.push(b); // the whole character: valid but longer than N
+            }
+        }
+    }
+    // ill-formed sequences at a random position of a well-formed string
+    let bad: [&[u8]; 20] = [
+        &[0x80], &[0xbf], &[0xc0, 0x80], &[0xc1, 0xbf], &[0xe0, 0x80, 0x80], &[0xe0, 0x9f, 0xbf], &[0xed, 0xa0, 0x80], &[0xed, 0xbf, 0xbf],
+        &[0xf0, 0x80, 0x80, 0x80], &[0xf0, 0x8f, 0xbf, 0xbf], &[0xf4, 0x90, 0x80, 0x80], &[0xf5, 0x80, 0x80, 0x80], &[0xff], &[0xfe],
+        &[0xc2], &[0xe2, 0x82], &[0xf0, 0x9f, 0x98], &[0xc2, 0x41], &[0xe2, 0x41, 0x80], &[0xf8, 0x88, 0x80, 0x80, 0x80],
+    ];
+    for b in bad.iter() {
+        if thorough || rng.chance(1, 2) {
+            let pl = rng.below(n as u64 + 1) as usize;
+            let mut v = utf8_of_len(rng, pl);
+            v.extend_from_slice(b);
+            if rng.chance(1, 2) {
+                let sl = rng.below(3) as usize;
+                v.extend(utf8_of_len(rng, sl));
+            }
+            out.push(v);
+        }
+    }
+    // the extreme well-formed sequences of each length
+    let good: [&[u8]; 9] = [
+        &[0x00], &[0x7f], &[0xc2, 0x80], &[0xdf, 0xbf], &[0xe0, 0xa0, 0x80], &[0xed, 0x9f, 0xbf], &[0xee, 0x80, 0x80], &[0xf0, 0x90, 0x80, 0x80],
+        &[0xf4, 0x8f, 0xbf, 0xbf],
+    ];
+    for g in good.iter() {
+        if thorough || rng.chance(1, 2) {
+            out.push(g.to_vec());
+        }
+    }
+    // plain random bytes
+    for _ in 0..if thorough { 8 } else { 4 } {
+        let l = rng.below(3 * n as u64 + 3) as usize;
+        out.push(rng.bytes(l));
+    }
+    out
+}
+
+/// The cases of one subject of the family, on top of `subject_cases`.
+fn impl_family_cases(rng: &mut Rng, t: &Ty, thorough: bool, out: &mut Vec<String>) {
+    subject_cases(rng, t, thorough, out);
+    let key = t.show();
+    if sized(t) && t.impl_only() {
+        out.push(format!("c19 buflen {key}"));
+    }
+    if !can_read(t) {
+        return;
+    }
+    let len = packed_len(t);
+    if let Ty::HStr(n) = t {
+        for b in string_buffers(rng, *n, thorough) {
+            out.push(format!("c19 unpack {key} {}", hex(&b)));
+        }
+        return;
+    }
+    // element size (vectors, arrays) or 1
+    let el = match t {
+        Ty::HVec(_, e) | Ty::Arr(_, e) => packed_len(e).max(1),
+        _ => 1,
+    };
+    let mut lens = vec![len + el, 2 * len, 2 * len + 1, 3 * len, 3 * len + el.saturating_sub(1)];
+    if el > 1 {
+        lens.extend([len + el - 1, len.saturating_sub(el) + 1]);
+    }
+    if len >= el {
+        lens.push(len - el);
+    }
+    for _ in 0..if thorough { 6 } else { 3 } {
+        lens.push(rng.below(3 * len as u64 + 3) as usize);
+    }
+    for l in lens {
+        let op = if rng.chance(1, 10) { "status" } else { "unpack" };
+        out.push(format!("c19 {op} {key} {}", rand_hex(rng, l)));
+    }
+    // tuples with a string component: ASCII buffers so that the string itself is well-formed
+    if let Ty::Tup(ts) = t {
+        if ts.iter().any(|c| matches!(c, Ty::HStr(_))) {
+            for l in [len.saturating_sub(1), len, len + 1, len / 2, 1] {
+                out.push(format!("c19 unpack {key} {}", hex(&utf8_of_len(rng, l))));
+            }
+        }
+    }
+}
+
+/// A panic of this kind is the known finding: a tuple with a `heapless::Vec` / `heapless::String` component (which
+/// decode fewer bytes than their PACKED_LEN without complaint) on a buffer shorter than the tuple's packed length.
+fn tuple_varlen_short(t: &Ty, n: usize) -> bool {
+    matches!(t, Ty::Tup(ts) if ts.iter().any(|c| matches!(c, Ty::HVec(..) | Ty::HStr(_)))) && n < packed_len(t)
+}
+
+fn impl_kind(t: &Ty) -> &'static str {
+    match t {
+        Ty::HVec(..) => "heapless-vec",
+        Ty::HStr(_) => "heapless-string",
+        Ty::Arr(..) => "array",
+        Ty::Tup(ts) if ts.iter().any(|c| matches!(c, Ty::HVec(..) | Ty::HStr(_))) => "tuple-with-heapless",
+        Ty::Tup(_) => "tuple",
+        Ty::Unit => "unit",
+        _ => "primitive",
+    }
+}
+
+/// Monitor of `unpack` / `status` on a type built from hand-written impls only: never a panic, and the answer is what the
+/// declared element layout says (vector: the complete elements present, at most N, little-endian, back to back; string:
+/// the whole buffer if it is well-formed UTF-8 of at most N bytes; array: the first N elements or ReadBufferTooShort;
+/// tuple: components at consecutive offsets).
+fn monitor_impl_unpack(line: &str, op: &str, ty: &Ty, buf: &[u8], ans: &str, rep: &mut Report) {
+    let len = packed_len(ty);
+    let kind = impl_kind(ty);
+    let cls = if len > 0 && buf.len() >= 3 * len {
+        "3x+"
+    } else if len > 0 && buf.len() >= 2 * len {
+        "2x+"
+    } else {
+        buf_class(buf.len(), len)
+    };
+    rep.hit(&format!("impl:{kind}:buf:{cls}"));
+    if let Ty::HVec(n, e) = ty {
+        let el = packed_len(e).max(1);
+        rep.hit(if buf.len() % el != 0 { "impl:vec:partial-tail" } else { "impl:vec:whole-elements" });
+        rep.hit(if buf.len() / el > *n { "impl:vec:more-than-N-elements" } else if buf.len() / el == *n { "impl:vec:N-elements" } else { "impl:vec:fewer-than-N-elements" });
+    }
+    if let Ty::Tup(ts) = ty {
+        rep.hit(&format!("impl:tuple-arity:{}", ts.len()));
+    }
+    if degenerate(ty) {
+        rep.hit("degenerate");
+        return;
+    }
+    if !matches!(ty, Ty::Prim(_) | Ty::Unit) && buf.len() != len {
+        rep.nontrivial.insert(line.to_string());
+    }
+    if ans == "panic" {
+        if tuple_varlen_short(ty, buf.len()) {
+            rep.fail(
+                "c19/impl-tuple-varlen-short-panic",
+                &format!("unpack of a {}-byte buffer (packed length {len}) panicked: the tuple walk slices &buf[PACKED_LEN..] behind a heapless component that decoded fewer bytes", buf.len()),
+                line,
+            );
+        } else {
+            rep.fail("c19/impl-panic", &format!("unpack of a {}-byte buffer (packed length {len}) panicked", buf.len()), line);
+        }
+        return;
+    }
+    let r = ref_unpack(ty, buf, Num::Rustc);
+    if let (Ty::HStr(_), Err(e)) = (ty, &r) {
+        rep.hit(&format!("impl:string:{e}"));
+    }
+    let want = match (op, &r) {
+        ("status", Ok(_)) => "ok".to_string(),
+        (_, Ok(_)) => show_res(&r),
+        (_, Err(e)) => format!("err:{e}"),
+    };
+    if ans != want {
+        rep.fail("c19/impl-decode", &format!("answered {ans}, the declared element layout gives {want}"), line);
     }
 }
 
@@ -1789,6 +2168,28 @@ fn monitor(line: &str, ans: &str, layouts: &BTreeMap<String, Ty>, rep: &mut Repo
         return;
     }
     let Some(mut ty) = parse_ty(tk[2]) else { return };
+    if op == "buflen" {
+        // `EtherCrabWireSized` of a hand-written impl: PACKED_LEN must be the declared packed length; buffer() has that
+        // many bytes — except `[$ty; N]`, whose Buffer is `[u8; N]` (array_buffer_shorter_counterexample; C15 finding)
+        let want_len = packed_len(&ty);
+        let parts: Vec<&str> = ans.split(':').collect();
+        match (parts.first(), parts.get(1).and_then(|x| x.parse::<usize>().ok()), parts.get(2).and_then(|x| x.parse::<usize>().ok())) {
+            (Some(&"ok"), Some(b), Some(p)) => {
+                if p != want_len {
+                    rep.fail("c19/impl-packed-len", &format!("PACKED_LEN = {p}, the declared layout has {want_len} bytes"), line);
+                } else if b != p {
+                    match &ty {
+                        Ty::Arr(n, e) if b == *n && packed_len(e) > 1 => rep.hit("buffer:array-of-wide-elements-shorter-than-packed-len"),
+                        _ => rep.fail("c19/impl-buffer-len", &format!("buffer() has {b} bytes, PACKED_LEN = {p}"), line),
+                    }
+                } else {
+                    rep.hit("buffer:packed-len");
+                }
+            }
+            _ => rep.fail("c19/impl-buffer-len", &format!("answered {ans}"), line),
+        }
+        return;
+    }
     if let Ty::Named(n) = &ty {
         rep.hit(&format!("incrate:{n}"));
         match layouts.get(n) {
@@ -1875,6 +2276,10 @@ fn monitor(line: &str, ans: &str, layouts: &BTreeMap<String, Ty>, rep: &mut Repo
         "unpack" | "status" | "repack" => {
             let Some(buf) = tk.get(3).and_then(|s| unhex(s)) else { return };
             rep.hit(&format!("buf:{}", buf_class(buf.len(), len)));
+            if ty.impl_only() && op != "repack" {
+                monitor_impl_unpack(line, op, &ty, &buf, ans, rep);
+                return;
+            }
             if dg {
                 rep.hit("degenerate");
                 return;
@@ -1886,7 +2291,7 @@ fn monitor(line: &str, ans: &str, layouts: &BTreeMap<String, Ty>, rep: &mut Repo
                 }
                 return;
             }
-            if buf.len() < len && !matches!(ty, Ty::Tup(_)) {
+            if buf.len() < len && !matches!(ty, Ty::Tup(_) | Ty::HVec(..) | Ty::HStr(_)) {
                 if ans != "err:ReadBufferTooShort" {
                     rep.fail("c19/short-buffer", &format!("buffer of {} < {len} bytes answered {ans}", buf.len()), line);
                 }
@@ -1946,6 +2351,8 @@ fn hit_subject(t: &Ty, rep: &mut Report) {
         Ty::Enum(_) => "enum",
         Ty::Arr(..) => "array",
         Ty::Tup(_) => "tuple",
+        Ty::HVec(..) => "heapless-vec",
+        Ty::HStr(_) => "heapless-string",
         _ => "primitive",
     };
     rep.hit(&format!("subject:{kind}"));
@@ -2188,6 +2595,22 @@ fn generate(tier: &str, seed: u64, rep: &mut Report) -> Vec<Case> {
         subject_cases(&mut rng, t, thorough, &mut lines);
         if matches!(t, Ty::Struct(_) | Ty::Enum(_)) {
             lines.push(format!("c19 parse {}", t.show()));
+        }
+    }
+    // the hand-written impls of impls.rs (own random stream: the cases above do not depend on it)
+    {
+        let mut frng = Rng::new(seed ^ 0x19c19_1397);
+        lines.extend(impl_family_corpus_lines().iter().map(|s| s.to_string()));
+        let mut fam: Vec<Ty> = impl_family_corpus_subjects().iter().map(|s| parse_ty(s).unwrap_or_else(|| panic!("family subject {s}"))).collect();
+        fam.extend(impl_family_random_subjects(&mut frng, thorough));
+        let mut fseen: BTreeSet<String> = BTreeSet::new();
+        for t in &fam {
+            if !fseen.insert(t.show()) {
+                continue;
+            }
+            hit_subject(t, rep);
+            rep.hit(&format!("impl-subject:{}", impl_kind(t)));
+            impl_family_cases(&mut frng, t, thorough, &mut lines);
         }
     }
     // invalid layouts: fixed corpus + random mutations of valid ones
